@@ -47,11 +47,11 @@ KEYS = {
     'any': [0, 1, 2, 'a', 'b', (1, 2), (1, 'x'), b'k1', -3, 'key with space', ('t',)],
     'str': ['a', 'b', 'c', 'key', 'k1', 'x y', '7'],
     'lit': [0, 1, 2, 'a', 'b', (1, 2), 'k1'],
-    'dir': [0, 1, 2, 'a', 'b', (1, 2), b'k1', 'k2', 'Key', 7777, ('t', 1)],
+    'dir': [0, 1, 2, 'a', 'b', (1, 2), b'k1', 'k2', 'Key', 'key', 'KEY', 7777, ('t', 1), '_x', 'K_y', -3],
     'diralias': [0, '0', 1, '1', 'a-b', 'a_b', (1, 2), '(1, 2)', 'z'],
     'dirsrc': ['a', 'b', 'k1', 'zz', 0, 1, 'x-y', -3],
     'dirsrcbad': ['a', 0, (1, 2), 'x y', 2.5, 'k1'],
-    'dirstr': ['a', 'b', 'c', 'key', 'k1', 'zz'],
+    'dirstr': ['a', 'b', 'c', 'key', 'Key', 'k1', 'zz', '_u'],
     'sql': [0, 1, 2, 'a', 'b', 'k1', b'kb', -3, 'x y'],
 }
 VALUES = {
